@@ -1,6 +1,8 @@
 (** * C04 -- Atomically shared buffers are race-free under every thread schedule.
     The protocol record [arc_proto] is regenerated from the orderings written in src/smart.rs on every run
     (coq/gen/ArcGen.v); the theorem is re-proved against it. *)
+From Coq Require Import List Arith Bool.
+Import ListNotations.
 From Hip Require Import ArcRA ArcRALib ArcRAProofs.
 From HipGen Require Import ArcGen.
 
@@ -20,6 +22,43 @@ Print Assumptions C04_race_free.
 Theorem C04_race_free_any_sound_protocol : forall p, sound_proto p = true -> forall sc, err (run p sc) = false.
 Proof. exact race_free_all_schedules. Qed.
 Print Assumptions C04_race_free_any_sound_protocol.
+
+(** released exactly once, and not before the last handle is gone *)
+Theorem C04_freed_iff_no_handle : forall sc, freed (run arc_proto sc) = true <-> nal (hds (run arc_proto sc)) = 0.
+Proof. apply freed_iff_no_handle. vm_compute. reflexivity. Qed.
+Print Assumptions C04_freed_iff_no_handle.
+
+Theorem C04_no_double_free : forall sc,
+  length (filter (fun a => match akd a with AF => true | _ => false end) (accs (run arc_proto sc))) <= 1.
+Proof. apply no_double_free. vm_compute. reflexivity. Qed.
+Print Assumptions C04_no_double_free.
+
+(** in-place mutable access (as_mut / in-place push) or ownership (try_unwrap / into_vec) is obtained only by the sole owner, and
+    every access ever made -- by any thread, through any former co-owner -- happens-before it (see [exclusive_grant]) *)
+Theorem C04_mutation_is_exclusive : forall sc a, In a (accs (run arc_proto sc)) -> akd a = AW ->
+  exists sc1 o sc2, sc = sc1 ++ (atid a, ahnd a, o) :: sc2 /\ (exists j, o = TryMut j \/ o = Unwrap j) /\
+    let s := run arc_proto sc1 in let s' := step arc_proto s (atid a) (ahnd a) o in
+    a = acc_of s' (atid a) (ahnd a) AW /\ In a (accs s') /\ exclusive_grant s s' (atid a) (ahnd a).
+Proof. apply mutation_is_exclusive. vm_compute. reflexivity. Qed.
+Print Assumptions C04_mutation_is_exclusive.
+
+(** the release is made by the sole owner after every prior access, and nothing touches the payload afterwards *)
+Theorem C04_release_after_last_access : forall sc a, In a (accs (run arc_proto sc)) -> akd a = AF ->
+  (exists sc1 o sc2, sc = sc1 ++ (atid a, ahnd a, o) :: sc2 /\ (o = Drop \/ exists j, o = Unwrap j) /\
+     let s := run arc_proto sc1 in let s' := step arc_proto s (atid a) (ahnd a) o in
+     a = acc_of s' (atid a) (ahnd a) AF /\ In a (accs s') /\ exclusive_grant s s' (atid a) (ahnd a)) /\
+  exists l, accs (run arc_proto sc) = a :: l.
+Proof. apply release_after_last_access. vm_compute. reflexivity. Qed.
+Print Assumptions C04_release_after_last_access.
+
+Theorem C04_no_uniq_fence_unwrap_refuted : exists sc, err (run {| incr_release := true; decr_release := true; free_fence := true; uniq_fence := false |} sc) = true.
+Proof. eexists. exact no_uniq_fence_unwrap_races. Qed.
+
+(** non-vacuity: a schedule in which a co-owner on another thread reads and drops, then the first owner unwraps *)
+Example C04_nonvacuous :
+  let s := run arc_proto [ (0,0,Clone); (0,1,Send 1); (1,1,Read); (1,1,Drop); (0,0,Unwrap 2) ] in
+  err s = false /\ freed s = true /\ length (accs s) = 3.
+Proof. vm_compute. repeat split. Qed.
 
 (** each weakening is racy: the side condition is not vacuous *)
 Theorem C04_relaxed_decr_refuted : exists sc, err (run {| incr_release := true; decr_release := false; free_fence := true; uniq_fence := true |} sc) = true.
